@@ -1020,14 +1020,34 @@ def _w_objlist(tr, e, env):
         return [], cstr(lits)
 
 
+_NW_COORD = ("Call(func=Attribute(value=Call(func=Attribute(value=Name(id='np'), attr='array'), args=[List(elts=[Name(id='dx'), Name(id='dy'), "
+             "Name(id='dz'), Constant(value=0), Constant(value=0)])], keywords=[]), attr='reshape'), args=[UnaryOp(op=USub(), operand=Constant(value=1)), "
+             "Constant(value=1)], keywords=[])")
+_NW_SHIFTED = ("BinOp(left=Attribute(value=Name(id='nwg'), attr='points'), op=Add(), right=BinOp(left=Name(id='shift'), op=Mult(), "
+               "right=Name(id='coord_shift')))")
+
+
+def _w_nasu(tr, e, env):
+    d = dump(e)
+    if d == "Attribute(value=Name(id='nwg'), attr='adj_scan_order')":
+        return [], '(nasu_order (n_adj nwg))'       # the translated property itself: SrcNw.v / EquivNw.v (entries in halves)
+    if d == "Attribute(value=Name(id='nwg'), attr='adj_scan_shift')":
+        return [], '(n_shift nwg)'
+    if d == _NW_COORD:
+        return [], '(dx, dy, dz)'                   # the column vector (dx, dy, dz, 0, 0): feed and shutter are not shifted
+    if d == _NW_SHIFTED:
+        return [], '(cols (map (shift_pt shift coord_shift) (n_pts nwg)))'      # points + shift * coord_shift, in float64
+
+
 def _skip_fabtime(st):
     return isinstance(st, ast.AugAssign) and isinstance(st.target, ast.Name) and re.fullmatch(r'_\w+_fab_time', st.target.id) is not None
 
 
 WRITER_SPEC = dict(out='SrcWr.v', imports='PureState LineTok PgmSrc PgmEquiv', femto_imports=' Pgm.Ops Writers.Writers', cfg_type='pcfg',
-                   cfg_attrs=set(), local_elt={}, expr_hooks=[_w_objlist], stmt_skip=[_skip_fabtime],
+                   cfg_attrs=set(), local_elt={}, expr_hooks=[_w_nasu, _w_objlist], stmt_skip=[_skip_fabtime],
                    parts=[('WaveguideWriter', 'pgm', 'wg_body', [('obj_list', 'list (list wobj)')]),
-                          ('MarkerWriter', 'pgm', 'mk_body', [('obj_list', 'list wobj')])])
+                          ('MarkerWriter', 'pgm', 'mk_body', [('obj_list', 'list wobj')]),
+                          ('NasuWriter', 'pgm', 'nwg_body', [('obj_list', 'list nobj')])])
 
 
 
